@@ -297,6 +297,41 @@ def relabel(r):
           'g': list(r['g'])}
 
 
+def to_batch_nested(v):
+  """to_batch with the columns one level down: {'x': {'v': .., 'f': .., 'g': ..}}."""
+  r = to_batch(v)
+  return {'x': {'v': r['x'], 'f': r['f'], 'g': r['g']}}
+
+
+def relabel_nested(r):
+  r = relabel({'x': r['x']['v'], 'f': r['x']['f'], 'g': r['x']['g']})
+  return {'x': {'v': r['x'], 'f': r['f'], 'g': r['g']}}
+
+
+class KeyPath(tuple):
+  """A key path of the model; built as tree.Key.new(*parts) or Key().at(..).at(..)."""
+
+  def name(self):
+    return '.'.join(str(p) for p in self)
+
+
+def key_name(key):
+  return key.name() if isinstance(key, KeyPath) else key
+
+
+def lib_key(key, use_at=False):
+  """The library key for a model key (str stays str, KeyPath -> tree.Key)."""
+  if not isinstance(key, KeyPath):
+    return key
+  from ml_metrics._src.chainables import tree
+  if use_at:
+    k = tree.Key()
+    for part in key:
+      k = k.at(part)
+    return k
+  return tree.Key.new(*key)
+
+
 class BatchAggInplace:
   """Exact aggregator over a column (batch of rows); mutates its state."""
 
@@ -349,6 +384,24 @@ SHAPES = {
 SLICED_SHAPES = ('sliced', 'sliced_chain', 'sliced_both')
 SLICERS = (('f',), ('f', 'g'))
 
+# Shapes whose aggregate output key and / or slicer features are Key PATHS
+# (tree.Key.new('out', 'agg'), Key().at('x').at('g')). `sliced` == 'keypath': the
+# records are nested batches {'x': {'v', 'f', 'g'}}, the aggregate reads
+# Key.new('x', 'v') and the slicers are KP_SLICERS.
+_KP_OUT = KeyPath(('out', 'agg'))
+SHAPES.update({
+    'keyed': [('', f1, _KP_OUT, False)],
+    'keyed_chain': [('a', f1, None, False), ('b', f2, KeyPath(('o', 'agg')), False)],
+    'keyed_slicers': [('', to_batch_nested, 'agg', 'keypath')],
+    'keyed_sliced': [('', to_batch_nested, _KP_OUT, 'keypath')],
+    'keyed_sliced_chain': [('a', to_batch_nested, None, False),
+                           ('b', relabel_nested, _KP_OUT, 'keypath')],
+})
+KEYPATH_SHAPES = ('keyed', 'keyed_chain', 'keyed_slicers', 'keyed_sliced',
+                  'keyed_sliced_chain')
+KEYPATH_SLICED_SHAPES = ('keyed_slicers', 'keyed_sliced', 'keyed_sliced_chain')
+KP_SLICERS = ((KeyPath(('x', 'f')),), (KeyPath(('x', 'f')), KeyPath(('x', 'g'))))
+
 
 class Sleepy:
   """Wraps a stage fn with seeded sleeps (real threads, part C)."""
@@ -377,7 +430,15 @@ def build_pipeline(shape, ds, aggmode='inplace', threads=0, delays=None):
       t = T.new(name=name).apply(fn)
     if key is not None and not sliced:
       cls = ExactAggInplace if aggmode == 'inplace' else ExactAggFunctional
-      t = t.aggregate(fn=cls(), output_keys=key)
+      t = t.aggregate(fn=cls(), output_keys=lib_key(key))
+    elif key is not None and sliced == 'keypath':
+      cls = BatchAggInplace if aggmode == 'inplace' else BatchAggFunctional
+      t = t.aggregate(fn=cls(), input_keys=lib_key(KeyPath(('x', 'v'))),
+                      output_keys=lib_key(key))
+      for feats in KP_SLICERS:
+        # Both construction forms: Key.new('x', 'f') and Key().at('x').at('g').
+        ks = tuple(lib_key(f, use_at=(j == 1)) for j, f in enumerate(feats))
+        t = t.add_slice(ks[0] if len(ks) == 1 else ks)
     elif key is not None:
       cls = BatchAggInplace if aggmode == 'inplace' else BatchAggFunctional
       t = t.aggregate(fn=cls(), input_keys='x', output_keys=key)
@@ -391,18 +452,23 @@ def slice_key(key, feats, vals):
   return '%s|%s|%s' % (key, ','.join(feats), ','.join(str(v) for v in vals))
 
 
-def _sliced_aggs(key, records):
+def _sliced_aggs(key, records, nested=False):
   groups = {key: []}
   for r in records:
+    if nested:
+      r = {'x': r['x']['v'], 'f': r['x']['f'], 'g': r['x']['g']}
     for j, x in enumerate(r['x']):
       groups[key].append(x)
       for feats in SLICERS:
         vals = tuple(r[f][j] for f in feats)
-        groups.setdefault(slice_key(key, feats, vals), []).append(x)
+        names = tuple('x.' + f for f in feats) if nested else feats
+        groups.setdefault(slice_key(key, names, vals), []).append(x)
   return {k: agg_of(v) for k, v in groups.items()}
 
 
 def norm_out(o):
+  if isinstance(o, dict) and isinstance(o.get('x'), dict):
+    o = {'x': o['x']['v'], 'f': o['x']['f'], 'g': o['x']['g']}
   if isinstance(o, dict):
     return ('rec', tuple(int(x) for x in o['x']), tuple(int(x) for x in o['f']),
             tuple(int(x) for x in o['g']))
@@ -420,15 +486,15 @@ def model_pipeline(shape, xs):
   for (_, fn, key, sliced) in SHAPES[shape]:
     cur = [fn(x) for x in cur]
     if key is not None and sliced:
-      aggs.update(_sliced_aggs(key, cur))
+      aggs.update(_sliced_aggs(key_name(key), cur, nested=(sliced == 'keypath')))
     elif key is not None:
-      aggs[key] = agg_of(cur)
+      aggs[key_name(key)] = agg_of(cur)
   return norm_outs(cur), (aggs or None)
 
 
 def upstream_agg_keys(shape):
   stages = SHAPES[shape]
-  return [key for (_, _, key, _s) in stages[:-1] if key is not None]
+  return [key_name(key) for (_, _, key, _s) in stages[:-1] if key is not None]
 
 
 def base_key(k):
@@ -450,20 +516,44 @@ def source_value_of_output(shape):
   return _INVERSE[shape]
 
 
+def _name(x):
+  """str -> itself, a key path (tree.Key) -> 'a.b', a tuple of those -> 'p,q'."""
+  if isinstance(x, str):
+    return x
+  if type(x).__name__ == 'Key':
+    return '.'.join(str(p) for p in x)
+  return ','.join(_name(e) for e in x)
+
+
 def norm_key(k):
   if isinstance(k, str):
     return k
+  if type(k).__name__ == 'Key':
+    return _name(k)
   sl = k.slice
-  metrics = k.metrics if isinstance(k.metrics, str) else ','.join(k.metrics)
+  metrics = _name(k.metrics)
   if not sl.features:
     return metrics
-  return slice_key(metrics, tuple(sl.features), tuple(sl.values))
+  return slice_key(metrics, tuple(_name(f) for f in sl.features), tuple(sl.values))
+
+
+def _flat_results(prefix, vals):
+  """A result stored under a key PATH is a nested dict: {'out': {'agg': [..]}}."""
+  if isinstance(vals, dict):
+    for k, v in vals.items():
+      yield from _flat_results(f'{prefix}.{k}', v)
+  else:
+    yield prefix, vals
 
 
 def norm_agg(res):
   if res is None:
     return None
-  return {norm_key(k): [int(v) for v in vals] for k, vals in dict(res).items()}
+  out = {}
+  for k, vals in dict(res).items():
+    for name, v in _flat_results(norm_key(k), vals):
+      out[name] = [int(x) for x in v]
+  return out
 
 
 def drain(it):
